@@ -15,13 +15,13 @@ const c12QueryKey = "QQQQQQQQQQQQQQQQRRRRRRRRRRRRRRRR"
 const c12Issuer = "rdpgw-portal"
 
 type c12Cfg struct {
-	ID        int      `json:"id"`
-	Mode      string   `json:"mode"`
-	HostKind  string   `json:"host_list"` // one, two, placeholder, mixed, dns
-	Split     bool     `json:"split_user_domain"`
-	NoUser    bool     `json:"no_username"`
-	Template  string   `json:"username_template"`
-	VerifyIP  bool     `json:"verify_client_ip"`
+	ID       int    `json:"id"`
+	Mode     string `json:"mode"`
+	HostKind string `json:"host_list"` // one, two, placeholder, mixed, dns
+	Split    bool   `json:"split_user_domain"`
+	NoUser   bool   `json:"no_username"`
+	Template string `json:"username_template"`
+	VerifyIP bool   `json:"verify_client_ip"`
 }
 
 func CheckC12(l *Lab, verifDir string) int {
@@ -192,7 +192,11 @@ func c12One(l *Lab, rep *Report, idp *IdP, c c12Cfg) {
 	}
 	// ---- sessions
 	users := []string{portUser, "alice", "carol@corp.example", "Ünï@dom", "we:ird", portUser + "@realm.example"}
-	addrs := []struct{ local string; xff []string; want string }{
+	addrs := []struct {
+		local string
+		xff   []string
+		want  string
+	}{
 		{"127.0.0.1", nil, "127.0.0.1"},
 		{"127.0.0.2", nil, "127.0.0.2"},
 		{"127.0.0.1", []string{"10.1.2.3"}, "10.1.2.3"},
